@@ -19,10 +19,72 @@ ETA = 2.0 ** -1074
 INF = math.inf
 
 
-def analyse(g, roots, env_val, env_err):
-    """returns dict node -> (IV val, float err).  err = inf when the node cannot be bounded (undetermined branch,
-    division by an interval containing 0, inverse trig near its singular points)"""
-    memo = {}
+def use_guards(g, roots):
+    """node -> frozenset of condition nodes c such that EVERY use of the node's computed value by the roots goes through
+    IF_ELSE_ZERO(c, .) (CasADi masks the value, even a NaN, when c is false).  Nodes are created after their arguments,
+    so decreasing id is a reverse topological order."""
+    G = {r: frozenset() for r in roots if r is not None}
+    todo = sorted(g.ancestors([r for r in roots if r is not None]), reverse=True)
+    for n in todo:
+        gn = G.get(n)
+        if gn is None:
+            continue
+        op, args, _ = g.nodes[n]
+        for k, x in enumerate(args):
+            s_ = gn | {args[0]} if (op == "IF_ELSE_ZERO" and k == 1) else gn
+            G[x] = s_ if x not in G else (G[x] & s_)
+    return G
+
+
+def _const_of(g, n):
+    op, args, payload = g.nodes[n]
+    if op == "CONST" and not isinstance(payload, str):
+        return float(payload)
+    if op == "NEG":
+        c = _const_of(g, args[0])
+        return None if c is None else -c
+    return None
+
+
+def guard_bounds(g, guards, a):
+    """(lo, hi) implied for the COMPUTED value of node a by the conditions in `guards` (each holds in floating point
+    whenever the guarded value is used)"""
+    lo, hi = -INF, INF
+    for c in guards:
+        neg = False
+        op, args, _ = g.nodes[c]
+        while op == "NOT":
+            neg = not neg
+            c = args[0]
+            op, args, _ = g.nodes[c]
+        if op not in ("LT", "LE"):
+            continue
+        x, y = args
+        if x == a and _const_of(g, y) is not None:
+            k = _const_of(g, y)
+            if neg:
+                lo = max(lo, k)  # not (a < k)  ->  a >= k
+            else:
+                hi = min(hi, k)
+        elif y == a and _const_of(g, x) is not None:
+            k = _const_of(g, x)
+            if neg:
+                hi = min(hi, k)  # not (k < a)  ->  a <= k
+            else:
+                lo = max(lo, k)
+    return lo, hi
+
+
+def analyse(g, roots, env_val, env_err, memo=None, hints=None, guards=None):
+    """returns dict node -> (IV val, float err).  err = inf when the node cannot be bounded (division by an interval
+    containing 0, unsupported operation).  A branch whose condition is not decided uniformly over the box (in real AND in
+    floating-point arithmetic) is bounded by the rule  |C - R| <= max(err_then, err_else) + sup |then - else|  (all four
+    combinations of the real and the floating-point decision).  `memo` may be passed to continue an earlier analysis with
+    the same env (sound as long as no already-evaluated node depends on an env entry that changed)."""
+    if memo is None:
+        memo = {}
+    guards = guards or {}  # use_guards(g, outputs): lets inverse-trig / sqrt domains be justified by the clamps around them
+    hints = hints or {}  # node -> IV or node: a proved enclosure / equal expression of the node's REAL value (tightens val only)
     import sys
     sys.setrecursionlimit(100000)
 
@@ -47,12 +109,46 @@ def analyse(g, roots, env_val, env_err):
                 f = float(payload)
                 r = (IV(f, f), 0.0)
         elif op in ("ADD", "SUB"):
-            (A, ea), (B, eb) = ev(args[0]), ev(args[1])
-            val = A + B if op == "ADD" else A - B
-            r = (val, rnd(val, ea + eb))
+            ite = ite_pattern(args) if op == "ADD" else None
+            if ite is not None and cond(ite[0]) is None:
+                # if_else(c, a, b) = if_else_zero(c, a) + if_else_zero(!c, b) with an undecided c
+                (A, ea), (B, eb) = ev(ite[1]), ev(ite[2])
+                val = A.hull(B)
+                gap = (A - B).mag()
+                z = zone(ite[0])
+                if z is not None and math.isfinite(ea) and math.isfinite(eb):
+                    # the real and the floating-point decision can differ only where the compared quantity is within its own
+                    # error of the constant: sup |then - else| is needed on that zone only
+                    xn, Z, ex = z
+                    over = {xn: (Z, ex)}
+                    if g.nodes[xn][0] == "FABS":
+                        # |y| in Z: y in Z or -Z, cut to y's own enclosure
+                        yn = g.nodes[xn][1][0]
+                        Y, ey = ev(yn)
+                        parts = [IV(max(Y.lo, p.lo), min(Y.hi, p.hi)) for p in (Z, -Z) if max(Y.lo, p.lo) <= min(Y.hi, p.hi)]
+                        if parts:
+                            yz = parts[0]
+                            for p in parts[1:]:
+                                yz = yz.hull(p)
+                            over[yn] = (yz, ey)
+                    dep = set()
+                    for k in over:
+                        dep |= dependants(k)
+                    seed = {k: v for k, v in memo.items() if k not in dep}
+                    seed.update(over)
+                    sub = analyse(g, [ite[1], ite[2]], env_val, env_err, seed, hints, guards)
+                    (A2, ea2), (B2, eb2) = sub[ite[1]], sub[ite[2]]
+                    if math.isfinite(ea2) and math.isfinite(eb2):
+                        gap = min(gap, (A2 - B2).mag())
+                r = (val, rnd(val, up(max(ea, eb) + gap)))
+            else:
+                (A, ea), (B, eb) = ev(args[0]), ev(args[1])
+                val = A + B if op == "ADD" else A - B
+                r = (val, rnd(val, ea + eb))
         elif op == "MUL":
             (A, ea), (B, eb) = ev(args[0]), ev(args[1])
             val = A.sq() if args[0] == args[1] else A * B
+            val = meet(val, flat_product(n))
             p = up(A.mag() * eb + B.mag() * ea + ea * eb)
             r = (val, rnd(val, p))
         elif op == "SQ":
@@ -83,11 +179,14 @@ def analyse(g, roots, env_val, env_err):
             A, ea = ev(args[0])
             val = A.sqrt()
             lo = max(A.lo, 0.0) - ea
-            if lo > 0:
-                p = up(ea / (2 * math.sqrt(lo)))
+            if A.lo - ea < 0 and not fp_nonneg(args[0]) and guard_bounds(g, guards.get(n, ()), args[0])[0] < 0:
+                r = (val, INF)  # the computed radicand may be negative: NaN
             else:
-                p = up(math.sqrt(ea)) if ea > 0 else 0.0
-            r = (val, rnd(val, p))
+                if lo > 0:
+                    p = up(ea / (2 * math.sqrt(lo)))
+                else:
+                    p = up(math.sqrt(ea)) if ea > 0 else 0.0
+                r = (val, rnd(val, p))
         elif op in ("SIN", "COS"):
             A, ea = ev(args[0])
             val = iv_sin(A) if op == "SIN" else iv_cos(A)
@@ -114,6 +213,12 @@ def analyse(g, roots, env_val, env_err):
                 val = IV(dn(dn(math.asin(lo_))), up(up(math.asin(hi_))))
             else:
                 val = IV(dn(dn(math.acos(hi_))), up(up(math.acos(lo_))))
+            glo, ghi = guard_bounds(g, guards.get(n, ()), args[0])
+            in_dom = (A.hi + ea <= 1.0 or ghi <= 1.0) and (A.lo - ea >= -1.0 or glo >= -1.0)
+            if not in_dom and not normalised_component(args[0]):
+                r = (val, INF)  # the computed argument may leave [-1, 1]: NaN
+                memo[n] = r
+                return r
             if m >= 1.0:
                 # the argument may touch +-1: |acos(x) - acos(y)| <= sqrt(2 |x - y|) * (pi/2)/sqrt(2) ... use the Hoelder bound
                 p = up(math.pi / 2 * math.sqrt(2 * ea)) if ea > 0 else 0.0
@@ -164,8 +269,9 @@ def analyse(g, roots, env_val, env_err):
             elif c is False:
                 r = (IV(0.0), 0.0)
             else:
+                # undecided: real value in {R_v, 0}, computed value in {C_v, 0}
                 V, e = ev(args[1])
-                r = (V.hull(IV(0.0)), INF)
+                r = (V.hull(IV(0.0)), up(V.mag() + e))
         elif op in ("LT", "LE", "EQ", "NE", "NOT", "AND", "OR"):
             c = cond(n)
             r = (IV(1.0), 0.0) if c is True else (IV(0.0), 0.0) if c is False else (IV(0.0, 1.0), INF)
@@ -175,8 +281,182 @@ def analyse(g, roots, env_val, env_err):
             r = (val, max(ea, eb))
         else:
             r = (IV(-INF, INF), INF)
+        h = hints.get(n)
+        if h is not None:
+            hv = h if isinstance(h, IV) else (h(ev) if callable(h) else ev(h)[0])
+            if hv is None:
+                hv = r[0]
+            lo_, hi_ = max(r[0].lo, hv.lo), min(r[0].hi, hv.hi)
+            if lo_ <= hi_:
+                r = (IV(lo_, hi_), r[1])
         memo[n] = r
         return r
+
+    def zone(c):
+        """c (through NOTs) = LT/LE(x, K) or LT/LE(K, x) with K constant: (x, [K - err_x, K + err_x] cut to x's enclosure, err_x)"""
+        op, args, _ = g.nodes[c]
+        while op == "NOT":
+            c = args[0]
+            op, args, _ = g.nodes[c]
+        if op not in ("LT", "LE"):
+            return None
+        k0, k1 = _const_of(g, args[0]), _const_of(g, args[1])
+        if (k0 is None) == (k1 is None):
+            return None
+        xn, K = (args[0], k1) if k0 is None else (args[1], k0)
+        X, ex = ev(xn)
+        if not math.isfinite(ex):
+            return None
+        lo_, hi_ = max(X.lo, dn(K - ex)), min(X.hi, up(K + ex))
+        if lo_ > hi_:
+            return None
+        return xn, IV(lo_, hi_), ex
+
+    def dependants(xn):
+        cache = g.__dict__.setdefault("_fp_dependants", {})
+        d = cache.get(xn)
+        if d is None:
+            users = g.__dict__.get("_fp_users")
+            if users is None or users[0] != len(g.nodes):
+                u = {}
+                for i, (_, args_, _) in enumerate(g.nodes):
+                    for x_ in args_:
+                        u.setdefault(x_, []).append(i)
+                users = (len(g.nodes), u)
+                g.__dict__["_fp_users"] = users
+                cache.clear()
+            d, stack = set(), [xn]
+            while stack:
+                k = stack.pop()
+                if k in d:
+                    continue
+                d.add(k)
+                stack.extend(users[1].get(k, ()))
+            cache[xn] = d
+        return d
+
+    nn_memo = {}
+
+    def fp_nonneg(n):
+        """the COMPUTED value is >= 0 whatever the rounding (monotone rounding, 0 representable)"""
+        r = nn_memo.get(n)
+        if r is not None:
+            return r
+        op, args, payload = g.nodes[n]
+        if op == "CONST":
+            r = not isinstance(payload, str) and payload >= 0
+        elif op in ("SQ", "FABS", "SQRT"):
+            r = True
+        elif op == "MUL":
+            r = args[0] == args[1] or (fp_nonneg(args[0]) and fp_nonneg(args[1]))
+        elif op in ("ADD", "DIV", "FMIN"):
+            r = fp_nonneg(args[0]) and fp_nonneg(args[1])
+        elif op == "FMAX":
+            r = fp_nonneg(args[0]) or fp_nonneg(args[1])
+        elif op in ("TWICE", "INV"):
+            r = fp_nonneg(args[0])
+        elif op == "IF_ELSE_ZERO":
+            r = fp_nonneg(args[1])
+        elif op in ("LT", "LE", "EQ", "NE", "NOT", "AND", "OR"):
+            r = True
+        else:
+            r = False
+        nn_memo[n] = r
+        return r
+
+    def normalised_component(a):
+        """a = +-x / sqrt(... + x^2 + ...) (possibly through the sign selection if_else(c, -t, t)): lemma L-NORMALIZE
+        (binary IEEE arithmetic, no underflow of x^2): fl(sqrt(fl(sum))) >= |x| because sqrt(fl(x^2)) rounds to |x| and
+        rounding is monotone, hence |fl(x / .)| <= 1"""
+        op, args, _ = g.nodes[a]
+        if op == "NEG":
+            return normalised_component(args[0])
+        if op == "ADD":
+            ite = ite_pattern(args)
+            if ite is not None:
+                return normalised_component(ite[1]) and normalised_component(ite[2])
+            return False
+        if op != "DIV":
+            return False
+        x, d = args
+        if g.nodes[d][0] != "SQRT":
+            return False
+        leaves, stack = [], [g.nodes[d][1][0]]
+        while stack:
+            k = stack.pop()
+            o2, a2, _ = g.nodes[k]
+            if o2 == "ADD":
+                stack.extend(a2)
+            else:
+                leaves.append(k)
+        if not all(fp_nonneg(k) for k in leaves):
+            return False
+        ok = any((g.nodes[k][0] == "SQ" and g.nodes[k][1][0] == x) or (g.nodes[k][0] == "MUL" and g.nodes[k][1] == (x, x)) for k in leaves)
+        if not ok:
+            return False
+        # x^2 underflowing is harmless as long as the whole sum does not (then |x| / norm << 1); overflow excluded by the bound
+        S, es = ev(g.nodes[d][1][0])
+        return S.lo - es > 1e-290 and S.hi + es < 1e290
+
+    flat_memo = {}
+
+    def flat(n):
+        """(sign, {leaf: multiplicity}) of a product tree of MUL / NEG / SQ nodes"""
+        r = flat_memo.get(n)
+        if r is not None:
+            return r
+        op, args, _ = g.nodes[n]
+        if op == "MUL":
+            (s1, f1), (s2, f2) = flat(args[0]), flat(args[1])
+            f = dict(f1)
+            for k, v in f2.items():
+                f[k] = f.get(k, 0) + v
+            r = (s1 * s2, f)
+        elif op == "NEG":
+            s1, f1 = flat(args[0])
+            r = (-s1, f1)
+        elif op == "SQ":
+            s1, f1 = flat(args[0])
+            r = (1, {k: 2 * v for k, v in f1.items()})
+        else:
+            r = (1, {n: 1})
+        flat_memo[n] = r
+        return r
+
+    def flat_product(n):
+        """enclosure of the real value of a product tree with repeated factors paired into even powers"""
+        sgn, f = flat(n)
+        if all(v == 1 for v in f.values()):
+            return None
+        val = IV(1.0)
+        for leaf, k in f.items():
+            A = ev(leaf)[0]
+            if k % 2 == 0:
+                B = A.abs()
+                P = IV(dn(B.lo ** k) if B.lo > 0 else 0.0, up(B.hi ** k))
+            elif k == 1:
+                P = A
+            else:
+                P = IV(dn(min(A.lo ** k, A.hi ** k)), up(max(A.lo ** k, A.hi ** k)))  # odd power: monotone
+            val = val * P
+        return val if sgn > 0 else -val
+
+    def meet(a, b):
+        if b is None:
+            return a
+        lo, hi = max(a.lo, b.lo), min(a.hi, b.hi)
+        return IV(lo, hi) if lo <= hi else a
+
+    def ite_pattern(args):
+        a0, a1 = g.nodes[args[0]], g.nodes[args[1]]
+        if a0[0] != "IF_ELSE_ZERO" or a1[0] != "IF_ELSE_ZERO":
+            return None
+        c0, c1 = a0[1][0], a1[1][0]
+        if g.nodes[c1][0] == "NOT" and g.nodes[c1][1][0] == c0:
+            return c0, a0[1][1], a1[1][1]
+        if g.nodes[c0][0] == "NOT" and g.nodes[c0][1][0] == c1:
+            return c1, a1[1][1], a0[1][1]
+        return None
 
     def cond(n):
         """True / False when the decision is the same in real and in floating-point arithmetic over the whole box, else None"""
